@@ -41,6 +41,10 @@ func (s *shadow) tick(dt int64) {
 }
 
 func (s *shadow) apply(o *op) {
+	if o.fault > 0 {
+		// the call fails before anything changed (or is a miss that changes nothing)
+		return
+	}
 	switch o.kind {
 	case oSet:
 		k := &s.keys[o.key]
@@ -112,6 +116,9 @@ func genRdsOp(r *rand.Rand, nkeys int) (o op) {
 		}
 		o.mne = r.Intn(4) == 0
 		o.keep = r.Intn(3) == 0
+		if r.Intn(10) == 0 {
+			o.fault = 1
+		}
 		return o
 	case x < 72:
 		o = op{kind: oGet, key: key}
@@ -126,8 +133,17 @@ func genRdsOp(r *rand.Rand, nkeys int) (o op) {
 		default:
 			o.rag, o.upd, o.updTTL = true, true, int64(r.Intn(3))
 		}
+		if r.Intn(8) == 0 {
+			o.fault = 1
+			if o.upd && !o.rag {
+				o.fault = 1 + r.Intn(2) // the read or the ttl refresh after it
+			}
+		}
 		return o
 	case x < 77:
+		if r.Intn(8) == 0 {
+			return op{kind: oRemove, key: key, fault: 1}
+		}
 		return op{kind: oRemove, key: key}
 	case x < 80:
 		return op{kind: oClear}
@@ -188,8 +204,38 @@ func runRds(cfg rdsCfg, ops []op, cnt counters, lg *runLog) (v verdict, nontrivi
 	// then the two outcomes are compared
 	both := func(o *op, label string) {
 		expired := o.kind != oClear && sh.keys[o.key].set && !sh.keys[o.key].live && sh.keys[o.key].dl < sh.now
-		om := apply(mem, o)
-		or := apply(rds, o)
+		var om, or outcome
+		if o.fault > 0 {
+			// a redis command of this call fails: the redis-backed cache goes first; a call that
+			// reports the failure is not acknowledged - it changed nothing and is not part of the
+			// common history. A call that is acknowledged all the same is part of it.
+			fr.mu.Lock()
+			fr.failIn, fr.faulted = o.fault, false
+			fr.mu.Unlock()
+			or = apply(rds, o)
+			fr.mu.Lock()
+			fired := fr.faulted
+			fr.failIn, fr.faulted = 0, false
+			fr.mu.Unlock()
+			if fired {
+				cnt["rds_injected_command_errors"]++
+			}
+			if fired && or.ec == ecOther {
+				lg.Logf("%s %s -> rds %s (not acknowledged: not issued to the in-memory cache)", label, o, or)
+				for _, l := range fr.drain() {
+					lg.Logf("      redis: %s", l)
+				}
+				cnt["rds_unacknowledged_calls"]++
+				return
+			}
+			plain := *o
+			plain.fault = 0
+			o = &plain
+			om = apply(mem, o)
+		} else {
+			om = apply(mem, o)
+			or = apply(rds, o)
+		}
 		lg.Logf("%s %s -> mem %s | rds %s", label, o, om, or)
 		for _, l := range fr.drain() {
 			lg.Logf("      redis: %s", l)
